@@ -79,7 +79,7 @@ Require Import PX.Model.Warnings PX.Spec.Csv PX.Model.Choices PX.Proofs.Choices 
    white space, writing the rows as CSV text (every field quoted) and reading the text back gives: the sheet names in order, and for each
    sheet its header row and, row by row, every filled cell under its own header (a row without any cell is kept as an empty row, so that row numbers are those of the table, except below the last row of a sheet). *)
 Theorem C12_csv_round_trip : forall W, NoDup (all_keys W) -> Forall PX.Proofs.CsvBook.sheet_ok W ->
-  option_map (csv_book lower_ascii) (parse_csv (write_csv (flat_map sheet_rows W))) = Some ((k_sheet_names, VNames (map sname W)) :: flat_map final_entries W).
+  option_map (csv_book lower_ascii) (parse_csv (write_csv (flat_map sheet_rows W))) = Some (Ok ((k_sheet_names, VNames (map sname W)) :: flat_map final_entries W)).
 Proof. exact csv_text_round_trip. Qed.
 Print Assumptions C12_csv_round_trip.
 Theorem C12_csv_nonvacuous : NoDup (all_keys ex_csv_workbook) /\ Forall PX.Proofs.CsvBook.sheet_ok ex_csv_workbook.
@@ -96,3 +96,48 @@ Print Assumptions C12_text_without_table_rows_is_not_markdown.
 Theorem C12_csv_with_pipes_example : md_structure ex_csv_with_pipes = [] /\ Nat.le 5 (length (filter (fun c => N.eqb c PIPE) ex_csv_with_pipes)).
 Proof. exact ex_csv_has_no_rows. Qed.
 Print Assumptions C12_csv_with_pipes_example.
+
+(* ---- header rows of the text formats, errors of the content, the workbook of one sheet (Model/CsvBook.v) ---- *)
+(* the csv header row is read by get_excel_column_headers, the function the spreadsheet readers use (C12_headers_never_truncated is
+   about that function): what it refuses, a repeated column header, refuses the whole csv workbook ... *)
+Theorem C12_csv_header_row_refused : forall lower oo s sn cs m, err s = None -> sheet s = Some sn -> headers s = None ->
+  mem sn PX.Gen.Warn.SUPPORTED_SHEET_NAMES = true -> cs <> [] -> Forall stripped cs -> has_content cs = true ->
+  get_excel_column_headers py_strip (N.to_nat MAX_ADJACENT_EMPTY_COLUMNS) (map opt_cell cs) = PyxErr m ->
+  err (step lower oo s ([] :: cs)) = Some m.
+Proof. exact csv_header_row_refused. Qed.
+Print Assumptions C12_csv_header_row_refused.
+Theorem C12_csv_refused_header_refuses_workbook : forall lower pre post m,
+  err (fold_left (step lower (only_one_sheet (pre ++ post))) pre init_st) = Some m -> csv_book lower (pre ++ post) = PyxErr m.
+Proof. exact csv_refused_header_refuses_workbook. Qed.
+Print Assumptions C12_csv_refused_header_refuses_workbook.
+(* ... the only sheet of a csv workbook is the survey whatever it is called (as for xls, xlsx and md), an unknown sheet beside others
+   is only noted for the spelling check *)
+Theorem C12_csv_only_sheet_is_survey : forall lower s n, err s = None -> nonempty (py_strip n) = true -> bmem (py_strip n) (bk s) = false ->
+  mem (lower (py_strip n)) PX.Gen.Warn.SUPPORTED_SHEET_NAMES = false ->
+  let s' := step lower true s [n] in
+  sheet s' = Some s_survey /\ headers s' = None /\ err s' = None /\ bget s_survey (bk s') = Some (VRows []).
+Proof. exact csv_only_sheet_is_survey. Qed.
+Print Assumptions C12_csv_only_sheet_is_survey.
+Theorem C12_csv_unknown_sheet_is_skipped : forall lower s n, err s = None -> nonempty (py_strip n) = true -> bmem (py_strip n) (bk s) = false ->
+  mem (lower (py_strip n)) PX.Gen.Warn.SUPPORTED_SHEET_NAMES = false ->
+  let s' := step lower false s [n] in sheet s' = Some (lower (py_strip n)) /\ err s' = None.
+Proof. exact csv_unknown_sheet_is_skipped. Qed.
+Print Assumptions C12_csv_unknown_sheet_is_skipped.
+
+(* ---- decimals as their shortest decimal form (Model/Backends.v float_text over the repr of the float) ---- *)
+Require Import PX.Proofs.FloatText.
+Theorem C12_decimal_without_exponent_kept : forall r, nochar CH_E r = true -> float_text r = r.
+Proof. exact float_text_plain. Qed.
+Print Assumptions C12_decimal_without_exponent_kept.
+(* the repr of a small float, d[.ddd]e-n, is written with the point moved n places: 0.000ddd with the same digits in the same order *)
+Theorem C12_small_decimal_expanded : forall neg d fp ed,
+  forallb isdigit (d :: fp) = true -> (1 <= nat_of_digits ed)%nat ->
+  float_text (sign neg ++ d :: frac fp ++ CH_E :: CH_MINUS :: ed)
+  = sign neg ++ CH_0 :: CH_DOT :: repeat CH_0 (nat_of_digits ed - 1) ++ d :: fp.
+Proof. exact float_text_small. Qed.
+Print Assumptions C12_small_decimal_expanded.
+Theorem C12_small_decimal_has_no_exponent : forall neg d fp ed,
+  forallb isdigit (d :: fp) = true -> (1 <= nat_of_digits ed)%nat ->
+  nochar CH_E (float_text (sign neg ++ d :: frac fp ++ CH_E :: CH_MINUS :: ed)) = true.
+Proof. exact float_text_small_no_exponent. Qed.
+Print Assumptions C12_small_decimal_has_no_exponent.
